@@ -13,9 +13,9 @@ CHECKS = {
         technique="Rocq proof over translator-regenerated tables + exhaustive correspondence",
         ref="DESIGN.md section 5, C10"),
     "C13": dict(
-        text="Serialisers and deserialisers of payload id, packet and OTI are modelled shift for shift; theorems (all field values within their widths, all payload lengths, all 4- and 12-byte buffers): layout = big-endian digit strings of the Spec, deserialise(serialise x) = x, re-serialisation reproduces the buffer except the reserved byte, short packets panic. Tie: hand model checked against the real API on boundary + random + malformed streams in both profiles, and the real bytes compared with the Spec layout directly.",
-        note="Trusted: Coq kernel; Spec/Wire.v as the RFC 3.2/3.3 layouts; correspondence is sampled (not exhaustive over 2^32 ids); static array lengths modelled as dynamic checks. No axioms.",
-        technique="Rocq proof (bit-level algebra) + differential correspondence",
+        text="Serialisers and deserialisers of payload id, packet and OTI are modelled shift for shift; theorems (all field values within their widths, all payload lengths, all 4- and 12-byte buffers): layout = big-endian digit strings of the Spec, deserialise(serialise x) = x, re-serialisation reproduces the buffer except the reserved byte, short packets panic. Tie: hand model checked against the real API on boundary + random + malformed streams in both profiles, and the real bytes compared with the Spec layout directly. The correspondence is additionally SYMBOLIC for the payload id and the OTI: Kani/CBMC harnesses (kani/src/proofs.rs) decide for all 2^32 ids / all 12-byte buffers that the real serialisers and deserialisers equal the Spec's digit strings (bounded model checking used as validation of the model against the code, never as a proof; the reference formulas are compared with the extracted Spec).",
+        note="Trusted: Coq kernel; Spec/Wire.v as the RFC 3.2/3.3 layouts; correspondence is sampled for packets, symbolic (Kani 0.68 / CBMC 6.11, trusted as a validation tool only) over all ids and all OTI buffers; static array lengths modelled as dynamic checks. No axioms.",
+        technique="Rocq proof (bit-level algebra) + differential and symbolic (Kani) correspondence",
         ref="DESIGN.md section 5, C13"),
     "C19": dict(
         text="Theorem C19_fixed_accepts_iff_valid: for all F < 2^64, 0<T<2^16, 0<Z<2^8, 0<Al<2^8 the modelled constructor returns exactly the given values iff the documented limits hold and panics otherwise, in both overflow modes; the pre-fix code is refuted by C19_pinned_refuted (2^32+5,1,1,1,1), repaired in /repo by fix 51a20da. Tie: accept/refuse of the real constructor vs the model and vs the Spec predicate on limit-adjacent inputs (F/T beyond 2^32, 56403*Z*T +- d, 942574504275 +- d), both profiles.",
@@ -23,8 +23,8 @@ CHECKS = {
         technique="Rocq proof (accept <-> valid) + boundary-stream correspondence",
         ref="DESIGN.md section 5, C19"),
     "C17": dict(
-        text="The cache is modelled as atomic steps (lookup critical section, unlocked generation, insert critical section with double check and FIFO eviction) of any number of threads; C17_invariant holds for EVERY schedule by induction (|plans| <= 64, order duplicate-free and equal to the key set, every stored and every in-flight plan is gen k), C17_transparent (every plan handed out for k is gen k), C17_bound, C17_fifo_eviction, C17_request_completes. Capacity comes from the source via the translator. Tie: the real cache is driven through the between-sections hook under enumerated and random schedules; its contents after every critical section are compared with the model, and the property predicates are evaluated on the real trace.",
-        note="Assumed: std::sync::Mutex mutual exclusion (one critical section = one atomic step); poisoning recovery not modelled; plan generation is a function of the symbol count; Arc identity not observed. No axioms.",
+        text="The cache is modelled as atomic steps (lookup critical section, unlocked generation, insert critical section with double check and FIFO eviction) of any number of threads; C17_invariant holds for EVERY schedule by induction (|plans| <= 64, order duplicate-free and equal to the key set, every stored and every in-flight plan is gen k), C17_transparent (every plan handed out for k is gen k), C17_bound, C17_fifo_eviction, C17_request_completes. Capacity comes from the source via the translator. Tie: the real cache is driven through the between-sections hook under enumerated and random schedules; its contents after every critical section are compared with the model, and the property predicates are evaluated on the real trace. A fourth step, Abort t (a request dying between its critical sections, e.g. a refused symbol count panicking in the unlocked generation), is part of every schedule: invariant, transparency and completion hold with it and C17_abort_harmless shows it changes nothing for anybody else; the harness aborts parked requests on schedule and issues refused requests on throwaway threads.",
+        note="Assumed: std::sync::Mutex mutual exclusion (one critical section = one atomic step); no modelled step can fail while the lock is held, so poisoning does not arise in the model (a refused request on another thread is exercised on the real cache and must leave later traces unchanged); plan generation is a function of the symbol count; Arc identity not observed. No axioms.",
         technique="Rocq invariant proof over all schedules + schedule-controlled correspondence",
         ref="DESIGN.md section 5, C17"),
     "C05": dict(
@@ -53,9 +53,9 @@ CHECKS = {
         technique="Rocq proof (model = RFC derivation on its domain) + boundary correspondence",
         ref="DESIGN.md section 5, C14"),
     "C15": dict(
-        text="Look-up functions, rand, deg, intermediate_tuple and enc_indices modelled statement by statement with u32/u64 widths; C15_params for all K <= 56403 via a scan lemma + 477-row sweep (K' least, S/W/P1 prime with P1 the least prime >= P, B >= 1, P >= H >= 2, L < 65536); C15_tuple_is_rfc and C15_tuple_ranges for every row and every X < 2^32; C15_no_panic_fixed / C15_enc_indices_in_range (PI loop terminates by a number-theoretic argument on the prime P1); the pre-fix overflow is characterised exactly (C15_pinned_only_two: the two reachable (K',X) pairs, found by inverting A modulo 2^32), repaired by fix 78eb5b2. Tables re-extracted every run and proved equal to the Spec snapshot. Tie: all 8 look-ups for all K (exhaustive), rand/deg/tuple/enc_indices on boundary and algebraically selected inputs, both profiles, tuples vs the Spec.",
-        note="Trusted: Coq kernel; translator (V0..V3, Table 2, P1 table, f[], multipliers); Spec/Tables_RFC.v snapshot trusted to be the RFC's tables; sampled correspondence over the 8e9 (K',X) pairs. No axioms.",
-        technique="Rocq proof (sweeps lifted + algebra over all X) + exhaustive/boundary correspondence",
+        text="Look-up functions, rand, deg, intermediate_tuple and enc_indices modelled statement by statement with u32/u64 widths; C15_params for all K <= 56403 via a scan lemma + 477-row sweep (K' least, S/W/P1 prime with P1 the least prime >= P, B >= 1, P >= H >= 2, L < 65536); C15_tuple_is_rfc and C15_tuple_ranges for every row and every X < 2^32; C15_no_panic_fixed / C15_enc_indices_in_range (PI loop terminates by a number-theoretic argument on the prime P1); the pre-fix overflow is characterised exactly (C15_pinned_only_two: the two reachable (K',X) pairs, found by inverting A modulo 2^32), repaired by fix 78eb5b2. Tables re-extracted every run and proved equal to the Spec snapshot. Tie: all 8 look-ups for all K (exhaustive), rand/deg/tuple/enc_indices on boundary and algebraically selected inputs, both profiles, tuples vs the Spec. Symbolic correspondence: Kani/CBMC harnesses decide for ALL v < 2^20, W that the real deg equals Spec.Deg, and for all y, i < 256 that the real rand equals Spec.Rand at the moduli 2^32-1 and 2^20 (validation, not proof).",
+        note="Trusted: Coq kernel; translator (V0..V3, Table 2, P1 table, f[], multipliers); Spec/Tables_RFC.v snapshot trusted to be the RFC's tables; sampled correspondence over the 8e9 (K',X) pairs, symbolic (Kani/CBMC, validation only) for deg and rand. No axioms.",
+        technique="Rocq proof (sweeps lifted + algebra over all X) + exhaustive/boundary and symbolic (Kani) correspondence",
         ref="DESIGN.md section 5, C15"),
     "C08": dict(
         text="SourceBlockDecoder / Decoder modelled as the state machine of the code (ESI set, optional source symbols, repair list, counter, per-block memo; cases 1/2/3a/3b with fall-back). Theorems for every consistent history: C08_inv (counter = number of present source symbols, ESI set = ESIs present, repair list duplicate-free), C08_dup_ignored, C08_set_determined (state depends only on the packet set, up to order of the repair list), C08_answer_set_determined_none (Some/None depends only on the set: matrices of permuted ISI lists have permuted rows, injectivity is permutation invariant), C08_batching, C08_stable, C08_incremental_eq_oneshot, C08_block_interleaving. Tie: histories (permutations with repetitions, batch boundaries, interleaved blocks, post-completion, clones, both APIs) on the real decoder vs the model step by step, both profiles, thresholds dense/250/sparse; different histories of one packet set must end in the same answer on the real code.",
